@@ -93,15 +93,23 @@ def _check_forward(ctx, result, module, cls, func, target_public, positional, ta
         # positional operands in order
         problems = []
         got_pos = [a for a in value.args]
+        kws = {kw.arg: kw.value for kw in value.keywords if kw.arg is not None}
+        target_params = [a.arg for a in target_def.args.posonlyargs + target_def.args.args]
         for idx, pname in enumerate(positional):
-            if idx >= len(got_pos) or not is_param(got_pos[idx], pname):
-                got = U(got_pos[idx]) if idx < len(got_pos) else "<missing>"
+            # the operand bound to the target's idx-th parameter, positionally or by that parameter's name
+            if idx < len(got_pos):
+                operand = got_pos[idx]
+            elif idx < len(target_params) and target_params[idx] in kws:
+                operand = kws.pop(target_params[idx])
+            else:
+                operand = None
+            if operand is None or not is_param(operand, pname):
+                got = U(operand) if operand is not None else "<missing>"
                 problems.append(f"operand {idx} is {got}, expected {pname}")
         if len(got_pos) > len(positional):
             problems.append(f"{len(got_pos) - len(positional)} extra positional arguments")
         # every other named parameter forwarded under its own keyword
         named = [p for p in _params(func) if p not in positional]
-        kws = {kw.arg: kw.value for kw in value.keywords if kw.arg is not None}
         for pname in named:
             if pname not in kws:
                 problems.append(f"parameter '{pname}' is not forwarded")
